@@ -74,7 +74,9 @@ def dotdot(w, rng):
 
 correspondence, search, replay, ASSUMPTIONS = runbase.make(
     "C03", [oracles.c03],
-    [("std", 130, 1200, {}, None), ("overlap", 70, 800, {}, overlap), ("odd", 60, 500, {}, odd_names), ("dotdot", 24, 200, {}, dotdot)],
-    "generated worlds with bystander directories, an export argument spelled through a symbolic link and '..' (the kernel's parent differs from the textual one), scan directories overlapping / containing the export directory, both flag values; recursive before/after snapshot of the whole sandbox + every open mode from the fs-shim log; adversarial names are exercised at the loader (C10 stream) and here through documents that must not load",
+    [("std", 130, 1200, {}, None), ("overlap", 70, 800, {}, overlap), ("odd", 60, 500, {}, odd_names), ("dotdot", 24, 200, {}, dotdot),
+     # the whole process under strace: no successful creating / modifying / renaming / removing system call on a path outside the sandbox
+     ("traced", 16, 120, {}, None, lambda sc, w: {"trace": True})],
+    "generated worlds with bystander directories, the process' working directory / HOME / TMPDIR inside the sandbox and listed afterwards, a sample of runs under strace (every successful mutating system call must name a path inside the sandbox), an export argument spelled through a symbolic link and '..' (the kernel's parent differs from the textual one), scan directories overlapping / containing the export directory, both flag values; recursive before/after snapshot of the whole sandbox + every open mode from the fs-shim log; adversarial names are exercised at the loader (C10 stream) and here through documents that must not load",
     "good_op: every mutating operation targets the export image of a non-padding segment or its parent directories; target_*_shape: lexically inside export/<hex>/Data; candidate/index opens are read-only (Generated.v obligations)",
     ["no symbolic link inside an export subtree redirects a path (lexical confinement)"])
